@@ -3,7 +3,7 @@ import os, sys, json
 sys.path.insert(0, os.path.join(os.path.dirname(os.path.abspath(__file__)), '..', 'lib'))
 import vcommon as V
 
-PROPS = ['props/C04.v', 'props/C04_src.v', 'props/State.v']
+PROPS = ['props/C04.v', 'props/C04_src.v', 'props/State.v', 'props/Lint.v']
 IMPORTS = ['model.Sign', 'proofs.SignInst', 'cases.C04keys']
 ASSUMPTIONS = [
     "sign_prim / vrfy_prim (RSASSA-PSS-SHA256, ECDSA over SHA-2 by curve size, Ed25519 of Go's crypto/*) are universally "
